@@ -97,6 +97,7 @@ type hop struct {
 const noValue = "NOVALUE"
 
 var absentStart bool // this worker's case starts without the file
+var writePerm os.FileMode = 0o666
 
 type srcReader struct {
 	data []byte
@@ -146,6 +147,10 @@ type linCase struct {
 	Procs int     `json:"procs"`
 	Progs [][]hop `json:"progs"` // per goroutine; goroutine g lives in process g % procs
 	Init  int     `json:"init"`  // length of the initial value; < 0: the file does not exist at the start
+	// Mode444: the file has no write permission bit - it is created that way, and every Write asks for that mode - which
+	// keeps nobody who may open it for writing (the owner of a fresh file inside Write, or root at any time) from doing so.
+	// Only exercised by root; otherwise an ordinary mode is used.
+	Mode444 bool `json:"mode444,omitempty"`
 }
 
 type rec1 struct {
@@ -189,7 +194,7 @@ func runActor(path string, actor int, prog []hop) []rec1 {
 			}
 		case "write":
 			r.In = id
-			err := lockedfile.Write(path, newSrc(value(id, o.Len), o.Src), 0o666)
+			err := lockedfile.Write(path, newSrc(value(id, o.Len), o.Src), writePerm)
 			r.Return = rig.MonoNanos()
 			if err != nil {
 				r.Err = err.Error()
@@ -226,6 +231,9 @@ func workerMain() {
 	var c linCase
 	json.Unmarshal([]byte(os.Getenv("VERIF_C07_CASE")), &c)
 	absentStart = c.Init < 0
+	if c.Mode444 {
+		writePerm = 0o444
+	}
 	d := os.Getenv("VERIF_C07_DIR")
 	var me int
 	fmt.Sscan(os.Getenv("VERIF_C07_PROC"), &me)
@@ -347,8 +355,14 @@ func execLin(c linCase) ([]rec1, *vt.Fail) {
 	d := filepath.Join(cachekit.Scratch(), fmt.Sprintf("c07l-%d-%d", os.Getpid(), atomic.AddInt64(&seq, 1)))
 	os.MkdirAll(d, 0o777)
 	defer os.RemoveAll(d)
+	if c.Mode444 && os.Geteuid() != 0 {
+		c.Mode444 = false
+	}
 	if c.Init >= 0 {
 		os.WriteFile(filepath.Join(d, "file"), value(initialID, c.Init), 0o666)
+		if c.Mode444 {
+			os.Chmod(filepath.Join(d, "file"), 0o444)
+		}
 	}
 	cj, _ := json.Marshal(c)
 	var ws []rig.Worker
@@ -448,6 +462,7 @@ func genLin(t *rapid.T) linReplay {
 	if ng < 2 {
 		ng = 2
 	}
+	c.Mode444 = rapid.IntRange(0, 5).Draw(t, "mode444") == 4
 	budget := 40
 	for g := 0; g < ng; g++ {
 		var prog []hop
@@ -478,6 +493,9 @@ func TestLinearizability(t *testing.T) {
 		cl := []string{fmt.Sprintf("procs=%d", c.Procs)}
 		if c.Init < 0 {
 			cl = append(cl, "file-missing-at-start")
+		}
+		if c.Mode444 {
+			cl = append(cl, "file-without-write-permission-bits")
 		}
 		return vt.Meta{NonTrivial: lastOverlap, Classes: cl}
 	}, Finalize: func(c linReplay) linReplay {
